@@ -198,7 +198,7 @@ def run(ctx):
     ctx.extra['exhaustive_part'] = 'two-row snapshot space of _get_schema_mismatches: %d cases, complete' % n_mm
     # ---- corpus + generated scripts
     todo = list(corpus_cases())
-    n = 600 if ctx.tier == 'quick' else 12000
+    n = 600 if ctx.tier == 'quick' else 5000
     for i in range(n):
         todo.append(gen_case(ctx.rng, 'future' if i % 2 == 0 else 'direct'))
     for case in todo:
